@@ -63,6 +63,11 @@ def run(lines, out, args):
                 ifs[2] = InterfaceClass("P2_%d" % t, (ifs[1],), __module__="zi.gen")
                 ifs[3] = InterfaceClass("R1_%d" % t, __module__="zi.gen")
                 ifs[4] = InterfaceClass("R2_%d" % t, (ifs[3],), __module__="zi.gen")
+                from zope.interface import classImplements, implementedBy
+                st["K"] = type("K%d" % t, (object,), {})
+                classImplements(st["K"], ifs[3])
+                ifs[5] = implementedBy(st["K"])
+                ifs[6] = implementedBy(object)
                 st["c"] = R.Components()
                 st["vals"] = {}
             elif op == "sro":
@@ -78,7 +83,12 @@ def run(lines, out, args):
                     elif op == "unregU":
                         ret = str(c.unregisterUtility(v, ifs[int(f[2])], f[3]))
                     else:
-                        RQ = tuple(ifs[int(x)] for x in f[2].split())
+                        toks = f[2].split()
+                        # a class stands for its implementedBy specification, None for Interface
+                        RQ = tuple(st["K"] if x == "5" else None if (x == "0" and "~" in toks) else ifs[int(x)] for x in toks if x.isdigit())
+                        if "@" in toks and v is not None:
+                            v.__component_adapts__ = RQ
+                            RQ = None
                         if op == "regA":
                             c.registerAdapter(v, RQ, ifs[int(f[3])], f[4], "i")
                         elif op == "unregA":
@@ -93,6 +103,9 @@ def run(lines, out, args):
                             ret = str(c.unregisterHandler(v, RQ))
                 except TypeError:
                     ret = "TypeError"
+                finally:
+                    if v is not None and "__component_adapts__" in v.__dict__:
+                        del v.__component_adapts__
                 got = "%s [%s]" % (ret, " ".join(events))
             elif op == "reinit":
                 c.__init__(c.__name__, c.__bases__)
